@@ -26,6 +26,8 @@ PROP = dict(
         _h("blocktime", "./blocktimeindex", "blocktimeindex/zz_verif_c12_test.go", "harness/blocktimeindex/c12_test.go"),
         _h("carreader", "./carreader", "carreader/zz_verif_c12_test.go", "harness/carreader/c12_test.go"),
         _h("linkedlog", "./gsfa/linkedlog", "gsfa/linkedlog/zz_verif_c12_test.go", "harness/gsfa/linkedlog/c12_test.go"),
+        dict(name="gsfa-chain", pkg="./gsfa", run="^TestVerif_C12Chain$",
+             files={"gsfa/zz_verif_c12chain_test.go": "harness/gsfa/c12chain_test.go"}, timeout=600, timeout_thorough=900),
         _h("manifest", "./gsfa/manifest", "gsfa/manifest/zz_verif_c12_test.go", "harness/gsfa/manifest/c12_test.go"),
         _h("ci-legacy8", "./deprecated/compactindex", "deprecated/compactindex/zz_verif_c12_test.go", "harness/deprecated/compactindex/c12_test.go"),
         _h("ci-legacy36", "./deprecated/compactindex36", "deprecated/compactindex36/zz_verif_c12_test.go", "harness/deprecated/compactindex36/c12_test.go"),
